@@ -5,6 +5,20 @@ import json, os, subprocess
 ROOT = os.path.dirname(os.path.dirname(os.path.abspath(__file__)))
 
 CLAIMED = {
+ "C08": dict(
+   text="Theorems in Coq about executable models of PrepareRLimit (C08_rlimit_values: an entry iff configured, soft = hard = configured, CPU hard = "
+        "max(CPUHard, CPU), full 64-bit values; once per resource), of the prlimit64 loop in the child (C08_limits_in_force: configured resources "
+        "exactly as configured, every other resource inherited; C08_limits_refusal: a refused entry stops the launch with its index), of the usage "
+        "comparison (Memory wins over Time; overrides any wait status in the ptrace and namespace runners), of the limit signals (SIGXCPU/SIGKILL -> "
+        "TLE, SIGXFSZ -> OLE on death in all three classifiers and at the ptrace signal-delivery stop) and of the output collector (C08_pipe_cap: "
+        "exactly the first min(max+1, n) bytes for every chunking; C08_pipe_drains: every byte is consumed; MaxInt64 wrap).  Tie on every run: "
+        "PrepareRLimit on 400 records, the sandboxed program's own getrlimit report for random records in the three runners (incl. values above "
+        "2^32 and refused records without privilege), pipe.NewBuffer against fast / huge / slow writers, CPU / file-size / memory exhaustion runs.",
+   note="Trusted: Coq kernel + vm_compute; that the kernel enforces a limit once set, and its acceptance rule for prlimit64 (an oracle parameter of "
+        "the model; the unprivileged rule is validated by the refused-record runs); the init of a pid namespace ignores SIGXFSZ/SIGXCPU (namespace "
+        "runner expectations).  The container runner has no time/memory bound of its own (it returns the measurements).",
+   technique="Coq proof (case analysis, induction over entry lists and chunk lists) + in-Coq differential evaluation + real runs under limits",
+   design="§5 C08"),
  "C01": dict(
    text="A verified validator: C01_filter_sound proves in Coq that any cBPF program accepted by check_filter returns the policy's verdict for "
         "EVERY seccomp_data (all syscall numbers, all architecture words, arbitrary ip/argument words; the proof is by comparison-signature "
